@@ -32,8 +32,8 @@ NAMED = ('hcp', 'diamond', 'honey', 'omega', 'rumpled', 'kagome', 'l12', 'b2', '
 
 
 def cases(tier, seed):
-    n = 48 if tier == 'quick' else 600
-    return [{'seed': seed, 'idx': i, 'hashseed': i % 5, 'ncrys': 3 if tier == 'quick' else 5, 'nops': 6 if tier == 'quick' else 10}
+    n = 48 if tier == 'quick' else 1000
+    return [{'seed': seed, 'idx': i, 'hashseed': i % (5 if tier == 'quick' else 7), 'ncrys': 3 if tier == 'quick' else 5, 'nops': 6 if tier == 'quick' else 10}
             for i in range(n)]
 
 
